@@ -386,7 +386,9 @@ def _move(case):
                 out['rsps'].append(m)
                 if m['fields'].get(0x0900) not in (0xFF00, 0xFF01):
                     # look for anything that still follows the final response
-                    extra = peer.read_message(timeout=3.0)
+                    # (a destination that never answers the release keeps the provider busy for
+                    # its whole time-out: whatever it sends then is still "after the final")
+                    extra = peer.read_message(timeout=3.0 if not slow_release else 12.0)
                     if isinstance(extra, dict) and 'fields' in extra:
                         out['after_final'] = extra
                     break
